@@ -280,6 +280,17 @@ def applyOp (x : Sim) : Op → Sim
   | .N => release x
   | .F => settle 100 (releaseAll 10000 x)
   | .Y => x
+  | .XM =>
+    if x.ms.stored then launch x .IM      -- current is the SDK: an ordinary second SetMeterProvider
+    else match step false x.ms x.nextTid .selfSet with
+      | some s' => { x with ms := s', nextTid := x.nextTid + 1 }.tag "selfSetM"
+      | none => { x with bad := true }
+  | .XT =>
+    if x.ts.stored then launch x .IT
+    else match step false x.ts x.nextTid .selfSet with
+      | some s' => { x with ts := s', nextTid := x.nextTid + 1 }.tag "selfSetT"
+      | none => { x with bad := true }
+  | .XP => x.tag "selfSetP"
   | .par _ => { x with bad := true }
 
 def runOps (x : Sim) (ops : List Op) : Sim := applyOp (ops.foldl applyOp x) .F
